@@ -385,6 +385,47 @@ def oracle_fits(w, app, label):
     return False, None
 
 
+def mon_c02_aggregates(w, pre, res, queues):
+    """C02, second sentence: what racks, pods and the cell aggregate over
+    their servers must never hide a server.  After every cycle, for every
+    node of the tree and every UP server below it: the node carries the
+    server's partition labels and traits, offers at least its free capacity
+    in every dimension (what Node.check_app_constraints prunes on; the
+    lifetime is checked on servers only - Bucket.valid_until is kept but
+    never consulted, so it is not judged)."""
+    del pre, res, queues
+    cell = w.cell
+
+    def walk(node):
+        """-> up servers below node"""
+        if isinstance(node, S.Server):
+            return [node] if node.state is State.up else []
+        below = []
+        for ch in node.children_iter():
+            below.extend(walk(ch))
+        for srv in below:
+            w.stats['c02_aggregate_checks'] += 1
+            bad = None
+            if not set(srv.labels) <= set(node.labels):
+                bad = ('labels', sorted(map(str, srv.labels)),
+                       sorted(map(str, node.labels)))
+            elif not node.traits.has(srv.traits.self_traits):
+                bad = ('traits', srv.traits.self_traits, node.traits.traits)
+            elif np.any(np.asarray(srv.free_capacity) >
+                        np.asarray(node.free_capacity)):
+                bad = ('free_capacity', vec(srv.free_capacity),
+                       vec(node.free_capacity))
+            if bad:
+                w.flag('aggregate-hides-a-server',
+                       '%s.%s' % (node.level, bad[0]),
+                       {'node': node.name, 'server': srv.name,
+                        'what': bad[0], 'server_has': bad[1],
+                        'node_has': bad[2]})
+        return below
+
+    walk(cell)
+
+
 def c02_site(w, app):
     """Why was a fitting probe missed?  Distinguish the feasibility tracker
     (another pending instance of the same shape) from tree pruning."""
